@@ -54,6 +54,18 @@ M = {
     ("        self.annotations.hash(state);\n", "")],
    None,
    "duplicates optimiser ignores annotations (merges a sent NOP with its un-sent twin)", "C02/C06"),
+ "a2b-local": ("ciphercore-base/src/mpc/resharing.rs",
+   "                | Operation::Truncate(_)\n                | Operation::A2B\n                | Operation::B2A(_)",
+   "                | Operation::Truncate(_)\n                | Operation::B2A(_)",
+   "A2B no longer forces its (possibly 3-out-of-3) input to be reshared: falls to the 'unrecognized operation' arm -> compile error (control: must be reported as compiler rejection, not violation)", "none"),
+ "const-fold-annotated": ("ciphercore-base/src/optimizer/constant_optimizer.rs",
+   "                if is_const_node && node.get_annotations()?.is_empty() {",
+   "                if is_const_node {",
+   "constant folder folds annotated nodes (a Send-carrying NOP over constants becomes a Constant: the marker is lost)", "C06 / C02"),
+ "b2a-drop-key-send": ("ciphercore-base/src/mpc/mpc_compiler.rs",
+   "            keys[0][2] = keys[0][2].nop()?;\n            keys[0][2].add_annotation(NodeAnnotation::Send(2, 0))?;",
+   "            keys[0][2] = keys[0][2].nop()?;",
+   "B2A key k_02 is never sent from party 2 to party 0", "C02"),
 }
 def main():
     root, mid = sys.argv[1], sys.argv[2]
